@@ -27,6 +27,7 @@ import (
 
 	"github.com/go-kit/log"
 	"github.com/oklog/ulid/v2"
+	"github.com/prometheus/client_golang/prometheus"
 	"github.com/prometheus/prometheus/model/labels"
 	"github.com/prometheus/prometheus/storage"
 	"github.com/prometheus/prometheus/tsdb"
@@ -438,6 +439,13 @@ func (c bucketCfg) String() string {
 	return fmt.Sprintf("l%d+b%d+s%d+c%d+g%d+sl%d+cl%d", l, c.batch, c.sampling, c.cache, c.gap, c.seriesLimit, c.chunksLimit)
 }
 
+// storeKey identifies a BucketStore instance: the limits are not part of it (the limiter factories read them
+// from the built store at request time, so one instance serves every pair of limits).
+func (c bucketCfg) storeKey() string {
+	c.seriesLimit, c.chunksLimit = 0, 0
+	return c.String()
+}
+
 func parseBucketCfg(s string) (bucketCfg, error) {
 	c := defaultBucketCfg()
 	for _, t := range strings.Split(s, "+") {
@@ -484,8 +492,10 @@ type built struct {
 	opened   []*tsdb.Block
 	bkt      objstore.Bucket
 	uploaded bool
-	stores   map[string]*store.BucketStore // by cfg string
-	tsdbs    []*store.TSDBStore            // one per block (kind tsdb uses the first)
+	// limits of the request being served (read by the limiter factories of every BucketStore of this dataset)
+	seriesLimit, chunksLimit uint64
+	stores                   map[string]*store.BucketStore // by cfg string
+	tsdbs                    []*store.TSDBStore            // one per block (kind tsdb uses the first)
 }
 
 func (b *built) close() {
@@ -527,7 +537,24 @@ func e2eTempRoot() string {
 				}
 			}
 		}
-		d, err := os.MkdirTemp("", "verif-stores-")
+		// tmpfs when there is one: block, index-header and chunk writers fsync a lot
+		base := ""
+		if fi, err := os.Stat("/dev/shm"); err == nil && fi.IsDir() {
+			base = "/dev/shm"
+			if ents, err := os.ReadDir(base); err == nil {
+				for _, e := range ents {
+					if strings.HasPrefix(e.Name(), "verif-stores-") {
+						if fi, err := e.Info(); err == nil && time.Since(fi.ModTime()) > 2*time.Hour {
+							_ = os.RemoveAll(filepath.Join(base, e.Name()))
+						}
+					}
+				}
+			}
+		}
+		d, err := os.MkdirTemp(base, "verif-stores-")
+		if err != nil {
+			d, err = os.MkdirTemp("", "verif-stores-")
+		}
 		if err != nil {
 			panic(err)
 		}
@@ -582,7 +609,8 @@ func getBuilt(tok string) (rb *built, rerr error) {
 }
 
 func (b *built) bucketStore(cfg bucketCfg) (*store.BucketStore, error) {
-	key := cfg.String()
+	key := cfg.storeKey()
+	b.seriesLimit, b.chunksLimit = cfg.seriesLimit, cfg.chunksLimit
 	if s, ok := b.stores[key]; ok {
 		return s, nil
 	}
@@ -622,7 +650,9 @@ func (b *built) bucketStore(cfg bucketCfg) (*store.BucketStore, error) {
 		opts = append(opts, store.WithIndexCache(c))
 	}
 	s, err := store.NewBucketStore(ins, fetcher, dir,
-		store.NewChunksLimiterFactory(cfg.chunksLimit), store.NewSeriesLimiterFactory(cfg.seriesLimit), store.NewBytesLimiterFactory(0),
+		func(failed prometheus.Counter) store.ChunksLimiter { return store.NewLimiter(b.chunksLimit, failed) },
+		func(failed prometheus.Counter) store.SeriesLimiter { return store.NewLimiter(b.seriesLimit, failed) },
+		store.NewBytesLimiterFactory(0),
 		store.NewGapBasedPartitioner(cfg.gap), 4, cfg.sampling, false, false, time.Minute, opts...)
 	if err != nil {
 		return nil, err
